@@ -654,10 +654,10 @@ func genRegions(c *vkit.Collector, rng *vkit.Rng, budget int) []*testRegion {
 	}
 	// loops, polygons with holes, polylines, points
 	for k := 0; k < 2*rep; k++ {
-		for _, rad := range []float64{1e-6, 1e-3, 0.1, 0.9} {
+		for j, rad := range []float64{1e-6, 1e-3, 0.1, 0.9} {
 			ctr, cn := pickCentre(rng)
 			r := rad * (1 + rng.Float())
-			switch rng.Intn(4) {
+			switch (j + k) % 4 { // every kind at two sizes per round
 			case 0:
 				regs = append(regs, loopRegion(rng, ctr, cn, r, 3+rng.Intn(9), 1))
 			case 1:
